@@ -23,6 +23,7 @@ type in struct {
 	RefUnix int64 `json:"ref_unix_s"`
 	TUnix   int64 `json:"t_unix_s"`
 	TNsec   int64 `json:"t_ns"`
+	RefNsec int64 `json:"ref_ns,omitempty"`
 }
 
 func check(r *mc.Run, scen string, ref, t time.Time) {
@@ -31,13 +32,13 @@ func check(r *mc.Run, scen string, ref, t time.Time) {
 	back := ntp.TimeFromTime64(ts, ref)
 	d := t.Sub(back)
 	if back.After(t) {
-		r.Fail(scen, "roundtrip-later-than-original", fmt.Sprintf("t=%v ref=%v: back=%v is later than t", t.UTC(), ref.UTC(), back), in{ref.Unix(), t.Unix(), int64(t.Nanosecond())})
+		r.Fail(scen, "roundtrip-later-than-original", fmt.Sprintf("t=%v ref=%v: back=%v is later than t", t.UTC(), ref.UTC(), back), in{ref.Unix(), t.Unix(), int64(t.Nanosecond()), int64(ref.Nanosecond())})
 	} else if d > 1 || t.Unix()-back.Unix() > 1 || t.Unix()-back.Unix() < -1 {
 		sig := "roundtrip-more-than-1ns-early"
 		if t.Unix()-back.Unix() > 1000 || t.Unix()-back.Unix() < -1000 {
 			sig = "roundtrip-wrong-era"
 		}
-		r.Fail(scen, sig, fmt.Sprintf("t=%v ref=%v (t-ref=%ds): back=%v, difference %v", t.UTC(), ref.UTC(), t.Unix()-ref.Unix(), back, d), in{ref.Unix(), t.Unix(), int64(t.Nanosecond())})
+		r.Fail(scen, sig, fmt.Sprintf("t=%v ref=%v (t-ref=%ds): back=%v, difference %v", t.UTC(), ref.UTC(), t.Unix()-ref.Unix(), back, d), in{ref.Unix(), t.Unix(), int64(t.Nanosecond()), int64(ref.Nanosecond())})
 	}
 }
 
@@ -62,9 +63,9 @@ func TestCheck(t *testing.T) {
 	mc.Main(t, "C04", func(r *mc.Run) {
 		var rin in
 		if r.Replaying() {
-			for _, sc := range []string{"nsec", "frac", "seconds", "order"} {
+			for _, sc := range []string{"nsec", "frac", "seconds", "order", "edges"} {
 				if r.ReplayInput(sc, &rin) {
-					check(r, sc, time.Unix(rin.RefUnix, 0).UTC(), time.Unix(rin.TUnix, rin.TNsec).UTC())
+					check(r, sc, time.Unix(rin.RefUnix, rin.RefNsec).UTC(), time.Unix(rin.TUnix, rin.TNsec).UTC())
 				}
 			}
 			for _, v := range r.Rep.Violations {
@@ -109,10 +110,10 @@ func TestCheck(t *testing.T) {
 			ts := ntp.Time64FromTime(t1)
 			t2 := ntp.TimeFromTime64(ts, ref)
 			if t2.After(t1) || t1.Sub(t2) > 1 {
-				r.Fail("frac", "fraction-roundtrip", fmt.Sprintf("fraction %#x: %v -> %v -> %v", f, t1, ts, t2), in{ref.Unix(), t1.Unix(), int64(t1.Nanosecond())})
+				r.Fail("frac", "fraction-roundtrip", fmt.Sprintf("fraction %#x: %v -> %v -> %v", f, t1, ts, t2), in{ref.Unix(), t1.Unix(), int64(t1.Nanosecond()), 0})
 			}
 			if ts.Seconds != secs || ts.Fraction > f {
-				r.Fail("frac", "fraction-grows", fmt.Sprintf("fraction %#x came back as %#x (seconds %d -> %d)", f, ts.Fraction, secs, ts.Seconds), in{ref.Unix(), t1.Unix(), int64(t1.Nanosecond())})
+				r.Fail("frac", "fraction-grows", fmt.Sprintf("fraction %#x came back as %#x (seconds %d -> %d)", f, ts.Fraction, secs, ts.Seconds), in{ref.Unix(), t1.Unix(), int64(t1.Nanosecond()), 0})
 			}
 		}
 		for c := uint64(0); c < 1<<32; c += 1 << 24 {
@@ -183,11 +184,27 @@ func TestCheck(t *testing.T) {
 				bb := ntp.TimeFromTime64(ntp.Time64FromTime(b), ref)
 				r.Evals++
 				if bb.Before(ba) {
-					r.Fail("order", "order-not-preserved", fmt.Sprintf("ref=%v: %v<%v but %v>%v", ref, a, b, ba, bb), in{ref.Unix(), a.Unix(), 999_999_999})
+					r.Fail("order", "order-not-preserved", fmt.Sprintf("ref=%v: %v<%v but %v>%v", ref, a, b, ba, bb), in{ref.Unix(), a.Unix(), 999_999_999, 0})
 				}
 			}
 		}
-		r.Sample(in{rs[3].Unix(), rs[3].Unix() - 100, 999_999_999})
+		// 4. references with a sub-second part: the window is [ref-2^31 s, ref+2^31 s)
+		// around the reference itself, not around its whole seconds
+		half := time.Duration(1<<31) * time.Second
+		for _, ref0 := range rs {
+			if !r.Mine() {
+				continue
+			}
+			for _, rns := range []int64{1, 100_000_000, 500_000_000, 900_000_000, 999_999_999} {
+				ref := time.Unix(ref0.Unix(), rns).UTC()
+				for _, d := range []time.Duration{0, 1, 2, 100 * time.Millisecond, 800 * time.Millisecond, 999_999_999, time.Second, time.Second + 1} {
+					check(r, "edges", ref, ref.Add(half-1-d)) // upper edge, inside
+					check(r, "edges", ref, ref.Add(-half+d))  // lower edge, inside
+				}
+				r.Distinct++
+			}
+		}
+		r.Sample(in{rs[3].Unix(), rs[3].Unix() - 100, 999_999_999, 0})
 		r.Sample(map[string]any{"references": len(rs), "ns_references": len(nsRefs), "fraction_step": step})
 		r.Extra["rule"] = "all 10^9 nanoseconds (1 reference quick, 3 thorough) + fractions (every 2^12-th and +-4096 around multiples of 2^28 quick, all 2^32 thorough) + 38 reference times (1970, 2024, +-{0,1,2,100,2^31-1,2^31} s around the era boundaries of 2036/2172/2308, mid-era, 2400, 2^33 s) x {window edges, all 2^16 second offsets around each era boundary in the window, a sweep of the window} x 7 boundary nanoseconds; distinct = distinct (reference, time) pairs"
 	})
